@@ -22,7 +22,7 @@ inductive Err where
 
 /-- provenance of an assertion inside the Z3 object (printing / correspondence only; `sem` is the meaning) -/
 inductive ZTag where
-  | con (id : Nat)                                   -- a converted claripy constraint
+  | con (zid : Nat)                                  -- a converted claripy constraint (Z3 AST identity)
   | ne (e : Nat) (v : Nat)                           -- `exprs[0] != r[0]`               (_batch_eval)
   | notAll (evs : List (Nat × Nat))                  -- `Not(And(ex == v, ...))`         (_batch_eval)
   | range (e : Nat) (lo hi : Int) (signed : Bool)    -- `And(GE(e, lo), LE(e, hi))`      (_extrema)
@@ -37,7 +37,7 @@ structure ZCon where
 
 instance : Inhabited ZCon := ⟨⟨.con 0, fun _ => true⟩⟩
 
-def ZCon.ofCon (c : Con) : ZCon := ⟨.con c.id, c.sem⟩
+def ZCon.ofCon (c : Con) : ZCon := ⟨.con c.zid, c.sem⟩
 
 /-- A `z3.Solver`: assertion frames (innermost first; the last one is the base level) and the core of the
 last `check`. -/
